@@ -59,7 +59,7 @@ CHECKS["C20"] = dict(
     design="4/C20")
 
 CHECKS["C14"] = dict(
-    text="Specification's FieldsInSetCanMerge/SameResponseShape as an executable Coq function proved terminating on all documents (cyclic spreads included) and adequate w.r.t. an inductive declarative reading; the rule's two memo tables (PairSet, OrderedPairSet) modelled exactly with their laws proved; the memoised algorithm (steps A-J) modelled and proved never to skip a comparison on a weaker memo entry. The memoised algorithm is proved terminating and equivalent to the specification function for documents without named fragments (C14_equiv_partial); with fragments the equivalence is checked on every run by comparing the real rule, the extracted specification function and the extracted memoised model on generated documents (also location-free ASTs), including the real rule's memo decision trace",
+    text="Specification's FieldsInSetCanMerge/SameResponseShape as an executable Coq function proved terminating on all documents (cyclic spreads included) and adequate w.r.t. an inductive declarative reading; the rule's two memo tables (PairSet, OrderedPairSet) modelled exactly with their laws proved; the memoised algorithm (steps A-J) modelled and proved never to skip a comparison on a weaker memo entry. The memoised algorithm is proved terminating, proved never to hide a conflict of the specification function on any document (cyclic fragments included, C14_memo_never_hides), and proved equivalent to it for documents without named fragments (C14_equiv_partial); the converse direction with fragments is checked on every run by comparing the real rule, the extracted specification function and the extracted memoised model on generated documents (also location-free ASTs), including the real rule's memo decision trace",
     note="names interned; out of fragment (skipped and counted): untypable fields, __schema/__type, fragment arguments, @stream, duplicate argument names, block-string arguments; literal identity = same kind and source text after sorting input-object keys; C14_equiv proved only for fragment-free documents",
     technique="Coq proof (spec function terminates and is adequate; memo laws) + extraction-based differential correspondence",
     design="4/C14")
